@@ -13,6 +13,8 @@ import (
 	"verifsim/harness/core"
 	_ "verifsim/harness/bcastx"
 	_ "verifsim/harness/ccontx"
+	_ "verifsim/harness/concx"
+	_ "verifsim/harness/stackx"
 	_ "verifsim/harness/ccallx"
 	_ "verifsim/harness/oncex"
 	_ "verifsim/harness/promisex"
